@@ -41,7 +41,17 @@ func (Engine) Plan(prop, tier string) kernel.Plan {
 	return kernel.Plan{Runs: runs, Pin: true, CrashProne: true}
 }
 
-func (Engine) Generate(prop, tier string, run int, seed uint64) *kernel.Scenario {
+func (e Engine) Generate(prop, tier string, run int, seed uint64) *kernel.Scenario {
+	sc := e.generate(prop, tier, run, seed)
+	if sr := kernel.NewRand(kernel.Derive(seed, "slow-spot")); sc != nil && sc.Config["slow_site"] == 0 && sr.Bool(0.1) {
+		// one hand-placed yield point of the run is a slow spot: whoever passes
+		// it loses 0.2-3 ms every time
+		sc.Config["slow_site"] = int64(sr.Range(1, len(world.SlowSites)))
+	}
+	return sc
+}
+
+func (Engine) generate(prop, tier string, run int, seed uint64) *kernel.Scenario {
 	r := kernel.NewRand(seed)
 	switch prop {
 	case "C06":
